@@ -302,8 +302,19 @@ def run_ws(seqs):
             async def close(self):
                 self.closed = True
         sock = Sock()
-        k["wslog"] = lambda x: got.append(x) or 1
-        k(".ws.m::{x;wslog(y)}")
+        import copy as _copy
+        k["wslog"] = lambda x: got.append(_copy.deepcopy(x)) or 1
+
+        def wstag(x):
+            if isinstance(x, dict):
+                x["tagged-by-handler"] = len(got)
+            elif isinstance(x, list):
+                x.append("tagged-by-handler")
+            return 1
+        k["wstag"] = wstag
+        # the handler records the message and then UPDATES it when it is a dictionary (handlers own what they receive:
+        # the next message, even one with identical text, must arrive untouched)
+        k(".ws.m::{x;wslog(y);wstag(y)}")
         prov = ws.ExistingConnectionProvider(sock, "ws://scripted")
         if not hasattr(prov, "is_open"):       # only ClientConnectionProvider defines it; the scripted socket is always open
             prov.is_open = lambda: True
@@ -434,6 +445,7 @@ def run(tier, seed):
                 seq.append(("out", rnd.choice(list(WS_SEND))))
         seqs.append(seq)
     seqs.append([("in", m) for m in WS_MESSAGES])
+    seqs.append([("in", {"T": "hb"}), ("in", {"T": "hb"}), ("in", [1, 2]), ("in", [1, 2]), ("in", {"T": "hb"}), ("in", {"a": {"b": 1}}), ("in", {"a": {"b": 1}})])
     seqs.append([("out", s) for s in WS_SEND])
     for evs in run_ws(seqs):
         traces.append({"tid": len(traces), "events": evs, "kind": "ws"})
